@@ -1095,8 +1095,12 @@ theorem executeDecimalMethod_err {l r : Option Node} {num : F64} {e : Err}
               cases hsc; exact getNodeInt32_err he''
             · split at hsc <;> cases hsc
               simp
-        · split at h <;> cases h
-          simp
+        · have hv : ∀ (b : Bool) (x : F64), (if b = true then (Except.error Err.verbose : Except Err F64) else .ok x) = .error e →
+              e ≠ .invalid := by
+            intro b x hb
+            cases b <;> simp at hb
+            cases hb; simp
+          exact hv _ _ h
 
 theorem convNumber_err {dec : Option (Option Node × Option Node)} {v : Item} {e : Err}
     (h : convNumber dec v = .viaReturnError e) : e ≠ .invalid := by
